@@ -174,6 +174,22 @@ func checkParserPrimitives(p *Prog, l *Ledger, rule string) bool {
 				return "done|" + eofK
 			case "test":
 				head := es[:strings.LastIndex(es, "→")]
+				if s == "loop" {
+					// guards in front of the loop that answer false where the loop would: no candidate types, or the end
+					// of input (no type fits there)
+					switch {
+					case head == "test((len(a1) < 1))" || head == "test((len(a1) == 0))":
+						if ev.Out == "true" {
+							return "done|" + eofK
+						}
+						return st
+					case reEOF.MatchString(head):
+						if ev.Out == "true" {
+							return "done|T"
+						}
+						return "loop|F"
+					}
+				}
 				switch {
 				case reEOF.MatchString(head):
 					if s == "elem" || s == "live" || s == "miss" {
